@@ -11,12 +11,12 @@ mkdir -p $DST; cp $OUT/* $DST/ 2>/dev/null
 git -C $WT checkout -q -- . && git -C $WT clean -fdq
 DEMO=$(ls $OUT/demo* | head -1); PKG=$(grep -m1 -o 'nsqd/\|nsqlookupd/\|nsqadmin/\|apps/[a-z_]*/\|internal/[a-z_]*/' $OUT/patch.diff | head -1)
 PKG=${PKG:-nsqd/}
-RUN=$(grep -o 'func Test[A-Za-z0-9_]*' $DEMO | head -1 | sed 's/func //')
+RUN=$(grep -o 'func Test[A-Za-z0-9_]*' $DEMO | sed 's/func //' | paste -sd'|')
 res() { echo "$1" | tee -a $DST/confirm.log; }
 : > $DST/confirm.log
 cp $DEMO $WT/$PKG/zz_seed_demo_test.go
 ( cd $WT && timeout 600 go test -vet=off -count=1 -run "$RUN" ./$PKG >/tmp/seed-$P-$M-clean.log 2>&1 ); res "demo on clean tree: rc=$?"
-git -C $WT apply $OUT/patch.diff || { res "patch does not apply"; exit 2; }
+git -C $WT apply $OUT/patch.diff 2>/dev/null || git -C $WT apply -C1 $OUT/patch.diff 2>/dev/null || ( cd $WT && patch -p1 --fuzz=3 -s < $OUT/patch.diff ) || { res "patch does not apply"; exit 2; }
 ( cd $WT && go build ./... ) ; res "build with mutant: rc=$?"
 ( cd $WT && timeout 600 go test -vet=off -count=1 -run "$RUN" ./$PKG >/tmp/seed-$P-$M-mut.log 2>&1 ); res "demo with mutant: rc=$? (expected non-zero)"
 rm -f $WT/$PKG/zz_seed_demo_test.go
